@@ -408,9 +408,7 @@ Qed.
    the bond orders, the cis/trans records, and the number of bytes pack produced *)
 Theorem unpack_pack m suf : pack_ok m = true ->
   exists bytes, pack m = Ok bytes /\
-    unpack (bytes ++ suf) =
-    Ok (mkUnpacked (map uatom_of (pm_atoms m)) (map adj_entry (pm_atoms m))
-                   (fwd_ct (pm_terminals m) (mol_fwd [] (pm_atoms m))) (Z.of_nat (length bytes))).
+    unpack (bytes ++ suf) = Ok (unpacked_of m (Z.of_nat (length bytes))).
 Proof.
   intros H. exists (pack_layout m). split; [apply pack_blocks; exact H|]. apply (unpack_layout m suf H).
 Qed.
